@@ -51,6 +51,15 @@ def _binary_op(op, lhs, rhs):
     )
 
 
+def _inplace_op(op, lhs, rhs):
+    # The components are updated in place; the Vector itself stays the same object,
+    # like an Array does. Returning a new Vector (with new component Arrays on the
+    # same buffers) would let its unit drift away from the one seen through other
+    # references to this Vector at the next update.
+    _binary_op(op, lhs, rhs)
+    return lhs
+
+
 class Vector(Base):
     def __init__(self, x, y=None, z=None, name="", unit=None):
         if isinstance(x, Array):
@@ -175,25 +184,25 @@ class Vector(Base):
         return _binary_op("__add__", self, other)
 
     def __iadd__(self, other):
-        return _binary_op("__iadd__", self, other)
+        return _inplace_op("__iadd__", self, other)
 
     def __sub__(self, other):
         return _binary_op("__sub__", self, other)
 
     def __isub__(self, other):
-        return _binary_op("__isub__", self, other)
+        return _inplace_op("__isub__", self, other)
 
     def __mul__(self, other):
         return _binary_op("__mul__", self, other)
 
     def __imul__(self, other):
-        return _binary_op("__imul__", self, other)
+        return _inplace_op("__imul__", self, other)
 
     def __truediv__(self, other):
         return _binary_op("__truediv__", self, other)
 
     def __itruediv__(self, other):
-        return _binary_op("__itruediv__", self, other)
+        return _inplace_op("__itruediv__", self, other)
 
     def __rmul__(self, other):
         return self * other
